@@ -2,7 +2,9 @@
 
 Seam: every shipped filter class and its interpolatable variant called directly,
 `filter(font, glyphSet)` on a copied glyph set (also `filter(font)` in place) and
-`ifilter(fonts, glyphSets)` on lists of masters.
+`ifilter(fonts, glyphSets)` on lists of masters.  The separate glyph set is given in both documented
+forms: a `_GlyphSet` (mode "copy": carries its own copy of the layer lib and a name) and a plain
+`dict` of copied glyphs (mode "dict": no `.lib`, no `.name`).
 
 State = (filter configuration, include/exclude specification, call mode).  In every state ALL
 histories of <= k invocations of ONE filter object over three small sibling fonts (for the
@@ -13,7 +15,10 @@ with a fresh filter object per font.  Four oracle clauses (DESIGN section 5, C14
                component base of an included glyph is snapshot-equal;
  (2) report    every glyph whose contours, components, anchors, width or height changed, or that
                appeared / disappeared, is in the returned set;
- (3) source    with a separate glyph set the deep snapshot of the source font is unchanged;
+ (3) source    with a separate glyph set the deep snapshot of the source font is unchanged; in mode
+               "dict" additionally a second run (fresh filter object, fresh glyph copies) on the SAME
+               font object gives the outcome of the first (anything the first run left behind in the
+               font, visible to the snapshot or not, would show here);
  (4) history   outcome (exception type / returned set / resulting glyph set) of every invocation in
                every history equals that of a fresh filter object on the same font; for the
                interpolatable variants additionally the per-master result does not depend on the
@@ -155,6 +160,11 @@ def small_specs():
     return out
 
 
+def tiny_specs():
+    """One specification of every kind (call mode "dict" in the quick tier)."""
+    return [["none"], ["predicate", "has-contours"], ["include", ["a"]], ["exclude", ["acutecomb"]]]
+
+
 def medium_specs():
     """none, predicates, and the include / exclude lists with <= 1 or >= 5 of the six names."""
     return [sp for sp in all_specs() if sp[0] in ("none", "predicate") or len(sp[1]) <= 1 or len(sp[1]) >= 5]
@@ -236,17 +246,27 @@ def bases_closure(before_list, names):
 
 class Invocation:
     """One call of a filter object on freshly built fonts."""
-    __slots__ = ("exc", "ret", "before", "after", "font_diff", "included", "message")
+    __slots__ = ("exc", "ret", "before", "after", "font_diff", "included", "message", "fonts")
 
 
-def invoke(filt, cfg, spec, target, mode, module):
+SEPARATE = ("copy", "dict")      # call modes that hand the filter a separate glyph set
+
+
+def invoke(filt, cfg, spec, target, mode, module, fonts=None):
+    """`fonts`: run on these font objects (a second run on the same fonts) instead of fresh ones."""
     from ufo2ft.util import _GlyphSet
     interp = CONFIG[cfg][2]
-    fonts = [B.build_font(font_spec(k), module) for k in target]
+    if fonts is None:
+        fonts = [B.build_font(font_spec(k), module) for k in target]
     inv = Invocation()
-    if mode == "copy":
+    inv.fonts = fonts if mode == "dict" else None
+    if mode in SEPARATE:
         font_before = [S.font_snapshot(f) for f in fonts]
         gss = [_GlyphSet.from_layer(f, copy=True) for f in fonts]
+        if mode == "dict":
+            # the same copies in a plain dict: no .lib / .name attributes, not a _GlyphSet
+            gss = [dict(gs) for gs in gss]
+            assert all(type(gs) is dict and not hasattr(gs, "lib") for gs in gss)
         views = gss
     else:
         gss = None
@@ -256,16 +276,16 @@ def invoke(filt, cfg, spec, target, mode, module):
     inv.exc, inv.ret, inv.message = None, None, ""
     try:
         if interp:
-            r = filt(fonts, gss) if mode == "copy" else filt(fonts)
+            r = filt(fonts, gss) if mode in SEPARATE else filt(fonts)
         else:
-            r = filt(fonts[0], gss[0]) if mode == "copy" else filt(fonts[0])
+            r = filt(fonts[0], gss[0]) if mode in SEPARATE else filt(fonts[0])
         inv.ret = sorted(r) if r is not None else None
     except Exception as e:  # classified by the caller
         inv.exc = type(e).__name__
         inv.message = str(e)[:200]
     inv.after = [{n: glyph_obs(v[n]) for n in v.keys()} for v in views]
     inv.font_diff = []
-    if mode == "copy":
+    if mode in SEPARATE:
         for k, f, snap in zip(target, fonts, font_before):
             now = S.font_snapshot(f)
             if now != snap:
@@ -346,8 +366,9 @@ def check_single(inv, cfg, spec, target, mode, viols, ctrs):
         else:
             viols.add(violation("unreported-" + what, dict(feat, glyph=n), returned=sorted(ret), **detail))
     ctrs["over_reported"] += len(ret - {n for n, _ in changed_any})
-    if mode == "copy":
+    if mode in SEPARATE:
         ctrs["source_frames_checked"] += 1
+        ctrs["source_frames_checked_plain_dict"] += mode == "dict"
         seen = set()
         for k, path, x, y in inv.font_diff:
             w = _where(path)
@@ -381,7 +402,8 @@ class C14(Property):
         "the composite-ness of every component base, so the order of the master list is immaterial",
         "a predicate include is evaluated by the oracle on the glyphs as they are before the call",
     ]
-    trusted_base = ["ufoLib2/defcon as containers", "mc/snapshot.py", "ufo2ft.util._GlyphSet.from_layer(copy=True)"]
+    trusted_base = ["ufoLib2/defcon as containers", "mc/snapshot.py", "ufo2ft.util._GlyphSet.from_layer(copy=True)"
+                    " (mode dict: the same copies moved into a plain dict)"]
 
     def bounds(self, tier):
         b = ({"depth": 0, "history_depth": 2, "defcon": "small"} if tier == "quick"
@@ -401,6 +423,10 @@ class C14(Property):
                 out.append([{"filter": cfg, "spec": spec, "mode": "inplace", "module": "ufoLib2"}])
                 out.append([{"filter": cfg, "spec": spec, "mode": "inplace", "module": "defcon"}])
                 out.append([{"filter": cfg, "spec": spec, "mode": "copy", "module": "defcon"}])
+            # the separate glyph set as a plain dict of copied glyphs
+            for spec in (tiny_specs() if b["defcon"] == "small" else small):
+                out.append([{"filter": cfg, "spec": spec, "mode": "dict", "module": "ufoLib2"}])
+                out.append([{"filter": cfg, "spec": spec, "mode": "dict", "module": "defcon"}])
         only = b.get("only")
         if only:  # developer aid (mutant triage): restrict to states whose description matches
             import re
@@ -416,7 +442,8 @@ class C14(Property):
         ctrs = {k: 0 for k in ("invocations", "histories", "raised", "glyphs_changed", "glyphs_added",
                                "glyphs_removed", "reported_changed", "reported_added", "reported_removed",
                                "over_reported", "excluded_glyph_intact", "changed_as_base_only",
-                               "source_frames_checked", "reuse_compared", "order_compared",
+                               "source_frames_checked", "source_frames_checked_plain_dict",
+                               "same_font_rerun_compared", "reuse_compared", "order_compared",
                                "structurally_different_master_lists")}
         # fresh filter object per target: clauses (1)-(3), and the baseline of clause (4)
         fresh = []
@@ -425,6 +452,25 @@ class C14(Property):
             ctrs["invocations"] += 1
             check_single(inv, cfg, spec, t, mode, viols, ctrs)
             fresh.append(inv)
+            # clause (3), second half: run again on the SAME font object(s).  Only when the snapshot of
+            # the source is unchanged; otherwise source-font-modified above is the report and a
+            # differing second run is its consequence.
+            if mode == "dict" and inv.exc is None and not inv.font_diff:
+                again = invoke(make_filter(cfg, spec), cfg, spec, t, mode, module, fonts=inv.fonts)
+                ctrs["invocations"] += 1
+                ctrs["same_font_rerun_compared"] += 1
+                if record(again) != record(inv) or again.font_diff:
+                    what = ("exception" if again.exc != inv.exc else
+                            "returned-set" if again.ret != inv.ret else
+                            "glyphs" if again.after != inv.after else "source-font")
+                    viols.add(violation(
+                        "rerun-on-same-font-differs", {"filter": cfg, "what": what},
+                        target=t, spec=spec, mode=mode,
+                        first={"exc": inv.exc, "returned": inv.ret},
+                        second={"exc": again.exc, "returned": again.ret, "message": again.message},
+                        glyph_diff=S.diff(inv.after, again.after, limit=6),
+                        font_diff=[list(d[:2]) for d in again.font_diff[:4]]))
+            inv.fonts = None
         nontrivial = sum(1 for inv in fresh if inv.before != inv.after or spec[0] != "none")
         nsub = len(targets)
         # clause (4a): every history of <= k invocations of ONE filter object
@@ -477,6 +523,7 @@ class C14(Property):
 
     NON_VACUITY = ["glyphs_changed", "glyphs_added", "glyphs_removed", "reported_changed", "reported_added",
                    "reported_removed", "excluded_glyph_intact", "changed_as_base_only", "source_frames_checked",
+                   "source_frames_checked_plain_dict", "same_font_rerun_compared",
                    "reuse_compared", "order_compared", "structurally_different_master_lists"]
 
     def finish(self, b, summary):
